@@ -834,9 +834,46 @@ def scramble_rng(seed: int):
     np.random.seed(seed % (2**32))
 
 
+def _someone_elses_config():
+    """What another part of a program may have done before: a TreeConfig built with the default options / default class mapping, whose
+    `options` and `config_class_to_deme_class` were then adjusted in place (hibernation on, a seed, a deme class of their own for
+    EALevelConfig).  Returns a function that undoes whatever of this reached the library's shared default objects."""
+    from pyhms import config as _cfgmod
+    from pyhms.config import EALevelConfig as _EAC
+    from pyhms.stop_conditions import DontStop as _DS
+
+    before_opts = dict(_cfgmod.DEFAULT_OPTIONS)
+    lv = _EAC(ea_class=_sea.SEA, generations=1, problem=FunctionProblem(lambda x: 0.0, np.array([[0.0, 1.0], [0.0, 1.0]]), False), pop_size=4, lsc=_DS())
+    other = TreeConfig([lv], MetaepochLimit(1), get_simple_sprout(1.0))
+    other.options["hibernation"] = True
+    other.options["random_seed"] = 12345
+    other.config_class_to_deme_class[_EAC] = userdefs.OverridingEADeme
+    shared_map = other.config_class_to_deme_class
+
+    def undo():
+        _cfgmod.DEFAULT_OPTIONS.clear()
+        _cfgmod.DEFAULT_OPTIONS.update(before_opts)
+        # (only has an effect where the mapping object is the library's shared default)
+        probe = TreeConfig([lv], MetaepochLimit(1), get_simple_sprout(1.0))
+        if probe.config_class_to_deme_class is shared_map or _EAC in probe.config_class_to_deme_class:
+            probe.config_class_to_deme_class.pop(_EAC, None)
+
+    return undo
+
+
 def run_case(desc: dict, monitors=(), gsc_cap=30000, run=True) -> Ctx:
     """Execute one tree descriptor under the taps.  Exceptions raised by pyhms end the run as 'aborted'
     (reported, never a verdict); HarnessError propagates."""
+    if desc.get("after_someone_elses_config"):
+        undo = _someone_elses_config()
+        try:
+            d2 = dict(desc)
+            d2.pop("after_someone_elses_config")
+            ctx = run_case(d2, monitors, gsc_cap=gsc_cap, run=run)
+            ctx.cov["runs_after_another_default_built_config_was_adjusted_in_place"] += 1
+            return ctx
+        finally:
+            undo()
     ctx = Ctx(desc, monitors, gsc_cap=gsc_cap)
     scramble_rng(desc.get("np_seed", 0))
     with warnings.catch_warnings(record=True) as wlist:
